@@ -86,8 +86,8 @@ class AttributeCollection(MutableMapping[int, Attribute]):
 
     # The previously parsed AttributeCollection
     cached: ClassVar[AttributeCollection | None] = None
-    # previously parsed attribute, from which cached was made of
-    previous: ClassVar[Buffer] = b''
+    # previously parsed attribute (and the session parameters it was parsed under), from which cached was made of
+    previous: ClassVar[Any] = b''
 
     representation: ClassVar[dict[int, tuple[str, str, str | tuple[str, ...], str, str]]] = {
         # key:  (how, default, name, text_presentation, json_presentation),
@@ -358,7 +358,10 @@ class AttributeCollection(MutableMapping[int, Attribute]):
 
     @classmethod
     def unpack(cls, data: Buffer, negotiated: Negotiated) -> AttributeCollection:
-        if cls.cached and data == cls.previous:
+        # what an attribute block decodes to depends on the session as well as on its bytes
+        # (AS numbers are 2 or 4 octets wide, AIGP is only accepted where it is enabled)
+        key = (bytes(data), negotiated.asn4, negotiated.aigp)
+        if cls.cached and key == cls.previous:
             return cls.cached
 
         attributes = cls().parse(data, negotiated)
@@ -380,7 +383,7 @@ class AttributeCollection(MutableMapping[int, Attribute]):
                 attributes.add(Aggregator.make_aggregator(aggregator4.asn, aggregator4.speaker))
 
         if Attribute.CODE.MP_REACH_NLRI not in attributes and Attribute.CODE.MP_UNREACH_NLRI not in attributes:
-            cls.previous = data
+            cls.previous = key
             cls.cached = attributes
         else:
             cls.previous = b''
